@@ -206,7 +206,11 @@ def step (line : String) : String :=
           | some (_, .bool _) => none
           | none => some 5
         match v with
-        | some v => if 0 ≤ v ∧ v < 256 then .output (toBitsMSB 8 v.toNat ++ toBitsMSB 8 0x34) [⟨some 0, 8⟩, ⟨some 8, 8⟩] else .failed 1
+        | some v =>
+          -- every further input file is `#d8 0x56`
+          let extra := (List.range (cmd.inputs.length - 1)).flatMap fun _ => toBitsMSB 8 0x56
+          let espans : List Span := (List.range (cmd.inputs.length - 1)).map fun i => ⟨some (16 + 8 * i), 8⟩
+          if 0 ≤ v ∧ v < 256 then .output (toBitsMSB 8 v.toNat ++ toBitsMSB 8 0x34 ++ extra) ([⟨some 0, 8⟩, ⟨some 8, 8⟩] ++ espans) else .failed 1
         | none => .failed 1
     let o := drive args asm unwritable
     let ws := if o.writes.isEmpty then "-" else ",".intercalate (o.writes.map fun (n, d) =>
